@@ -94,6 +94,8 @@ pub struct FnSpec {
     pub kill_arms: BTreeSet<usize>,
     /// emit signature + contract only, with an `external_body` (the callers' view of a case-split fn)
     pub stub: bool,
+    /// copy the source text of the function exactly (no rewrite rule): used for the Kani harness crate
+    pub verbatim: bool,
     pub closure_spans: Vec<(usize, (usize, usize))>,
     pub pin_idents: BTreeSet<String>,
     pub ref_params: BTreeSet<String>,
@@ -320,6 +322,7 @@ pub fn parse_spec(text: &str, prelude_dir: &str) -> Result<Unit, String> {
                 f.ret_ty = kv(&ws, "rty").map(|s| s.to_string());
                 f.params = kv(&ws, "params").map(|s| s.to_string());
                 f.self_as = kv(&ws, "selfas").map(|s| s.to_string());
+                f.verbatim = flag(&ws, "verbatim");
                 if flag(&ws, "assumed") {
                     // an assumed function: its real signature (rewritten by the rules) with the contract of the
                     // spec, body external.  A changed signature no longer matches the contract -> refusal, not silence.
